@@ -55,4 +55,22 @@ CHECKS["C09"] = dict(
     ],
 )
 
+CHECKS["C12"] = dict(
+    pkg="c12", race=True, level="exploration", timeout_quick=600, timeout_thorough=2400,
+    technique="model-based property testing (rapid) of middleware.Retry against a scripted handler: call count, result identity, hook numbering, back-off band and measured gaps (lower bounds)",
+    level_text="Generated Retry configurations and handler outcome scripts are executed with real (millisecond) back-off; the number of handler calls, the identity of the returned outputs/error, the OnRetryHook arguments and the reported/measured delays are compared with a model derived from the documentation, including early give-up on context cancellation and MaxElapsedTime.",
+    level_note="Trusted: the model in c12_test.go; wall-clock only as lower bounds plus a 250 ms slack upper bound for MaxElapsedTime. Upper bounds on sleeping are not demanded.",
+    steps=[dict(name="retry", run="^TestRetryModel$", quick=500, thorough=16000, shards_thorough=12),
+           dict(name="concurrent", run="^TestRetryConcurrentMessages$", quick=120, thorough=2400, shards_thorough=4)],
+)
+
+CHECKS["C13"] = dict(
+    pkg="c13", race=False, level="exploration", timeout_quick=600, timeout_thorough=2400,
+    technique="model-based property testing (rapid) of the PoisonQueue middleware, stand-alone and inside a running Router over scripted Pub/Subs",
+    level_text="Generated (message, handler result, filter, poison-publisher outcome) cases are run through PoisonQueue/PoisonQueueWithFilter stand-alone and in a Router; poison publishes (count, topic, UUID/payload, exact metadata), the returned error/outputs and the settlement (sampled inside the poison Publish and at quiescence) are compared with the model.",
+    level_note="Trusted: the model in c13_test.go and the scripted Pub/Subs. The fate of outputs returned together with a poisoned error is outside the property.",
+    steps=[dict(name="standalone", run="^TestPoisonStandAlone$", quick=4000, thorough=120000, shards_thorough=8),
+           dict(name="router", run="^TestPoisonInRouter$", quick=800, thorough=24000, shards_thorough=8)],
+)
+
 NOT_APPLICABLE = {}
